@@ -21,6 +21,18 @@ claim("C16",
       "unsupported dynamic types and errored children at depth <=3 give errored, never-equal items; no path panics. The hsms/sml half (errored items refused by message constructors, builders and send calls) is decided in the hsms harness.",
       "Trusted: executor + models, z3 (qffpbv tactic for FP paths), the clamp tables in the harness. Outside: typed-nil children, long numeric strings, float strings, more than 3 arguments.")
 
+claim("C03",
+      "Bounded symbolic model check of the real HSMS message constructors, serialisers, decoders, re-stamping helpers and buildFrameBuffers against a literal E37 8.2 frame layout: "
+      "all (stream, function, W, session id, system bytes) tuples x 7 body shapes, all nine control kinds with symbolic status/reason/request type, re-stamp chains of <=3 steps, all 2^80 headers for the from-header constructor. "
+      "Construction rejects exactly the invalid combinations; frame = decode = re-serialise = bytes handed to the transport.",
+      "Trusted: executor + models, z3, refFrame. Outside: the socket (the write is the net.Buffers handed to the transport), larger bodies (C01).")
+
+claim("C04",
+      "Bounded symbolic model check of (a) the three frame decode entry points on every byte string up to 19 bytes (thorough 22) and all 2^32 length fields: accepted iff well-formed, no panic, allocation bounded, "
+      "bad bodies accepted at frame level with one shared decode result for all holders; (b) the real recvLoop/readFrame/readN over a scripted net.Conn for every pair (thorough: triple) of cut points with per-segment delays: "
+      "same frames in order, deadline cleared iff at a frame boundary else exactly now+T8, idle gaps survive, in-frame gap > T8 or a length outside [10, cap] drops the link once without allocating.",
+      "Trusted: executor + models, z3, the scripted net.Conn (deadline contract of net.Conn assumed). Outside: real kernel timing, >3 cuts, >2 frames.")
+
 for _p, _r in {
     "C03": "check not yet registered in this session (work in progress, see DESIGN.md §3)",
     "C04": "check not yet registered in this session (work in progress, see DESIGN.md §3)",
